@@ -232,10 +232,18 @@ var curTracer atomic.Pointer[Tracer]
 // run without it (Wait / Count degrade to short sleeps, and only a dead process counts as a failure).
 var noTrace = os.Getenv("VERIF_NOTRACE") == "1"
 
+// perturb, when set, is called at every instrumentation point before the tracer: scenarios without a tracer (churn)
+// use it to yield the processor at chosen points, which widens windows between two statements of the server the way
+// a loaded machine would.
+var perturb atomic.Pointer[func(label string)]
+
 func init() {
 	gldap.VerifHook = func(label string, conn, req int) {
 		if noTrace {
 			return
+		}
+		if f := perturb.Load(); f != nil {
+			(*f)(label)
 		}
 		if t := curTracer.Load(); t != nil {
 			t.Hook(label, conn, req)
